@@ -317,13 +317,20 @@ class FieldMappingTransformationBase(DetectionItemTransformation):
                 self.processing_item_applied(detection_item)
                 result = detection_item
             else:
-                result = SigmaDetection(
-                    [
-                        dataclasses.replace(detection_item, field=field, auto_modifiers=False)
-                        for field in mapping
-                    ],
-                    item_linking=ConditionOR,
-                )
+                copies = [
+                    dataclasses.replace(detection_item, field=field, auto_modifiers=False)
+                    for field in mapping
+                ]
+                # The copies are created from the values after modifier application. They keep the
+                # values as written in the rule for their conversion back to plain data, otherwise
+                # the value modifiers would be applied a second time when that data is loaded.
+                for item_copy in copies:
+                    item_copy.original_value = (
+                        None
+                        if detection_item.original_value is None or field is None
+                        else detection_item.original_value.copy()
+                    )
+                result = SigmaDetection(copies, item_linking=ConditionOR)
         if field_match or fieldref_match:  # field name was changed or field reference was mapped
             if self._pipeline is not None and mapping is not None:
                 self._pipeline.field_mappings.add_mapping(field, mapping)
